@@ -687,6 +687,11 @@ class LMDBStorage(BaseStorage):
 
         await self.validate_event(event, Config)
 
+        if not (0 <= event.created_at < 2**32 and 0 <= event.kind < 2**32):
+            # the index keys hold both as 4 bytes; the writer thread could not
+            # store the event after it has been acknowledged
+            raise StorageError("invalid: created_at and kind must fit in 32 bits")
+
         if not event.is_ephemeral:
             self.writer_queue.put(("add", [event]))
         await self.post_save(event)
